@@ -2,7 +2,7 @@
 Spec: Filter.tla (law set on a finite model, with a negative control), FilterTrace.tla (law residuals and tone contract)."""
 import random, math, warnings
 import numpy as np
-from ..core import deadline, import_repo, MachineryError, fresh_repo
+from ..core import deadline, import_repo, MachineryError, fresh_repo, protect
 
 LEVEL = "exploration"
 
@@ -50,11 +50,11 @@ def run(ctx):
         rs = np.random.RandomState(it)
         a_, b_ = rs.uniform(-3, 3), rs.uniform(-3, 3)
         # ---- LPF (real)
-        x, y = rs.randn(n), rs.randn(n)
+        x, y = protect(rs.randn(n), rs.randn(n))
         with deadline(120):
             Fx, Fy = LPF(x, BW, order).signal, LPF(y, BW, order).signal
             law("linear", LPF(a_ * x + b_ * y, BW, order).signal + 10, a_ * Fx + b_ * Fy + 10)
-            e = electrical_signal(x, y)
+            e = protect(electrical_signal(x, y))
             Fe = LPF(e, BW, order)
             law("signal-and-noise-filtered-alike", Fe.noise + 10, Fy + 10)
             law("ndarray-and-container-agree", Fe.signal + 10, Fx + 10)
@@ -74,7 +74,7 @@ def run(ctx):
         BWo = rnd.uniform(0.02, 0.9) * fs
         cx = rs.randn(npol, n) + 1j * rs.randn(npol, n)
         cy = rs.randn(npol, n) + 1j * rs.randn(npol, n)
-        mk = lambda s_, n_=None: optical_signal(s_ if npol == 2 else s_[0], None if n_ is None else (n_ if npol == 2 else n_[0]))
+        mk = lambda s_, n_=None: protect(optical_signal(s_ if npol == 2 else s_[0], None if n_ is None else (n_ if npol == 2 else n_[0])))
         with deadline(120):
             Bx, By = BPF(mk(cx), BWo, order).signal, BPF(mk(cy), BWo, order).signal
             law("linear", BPF(mk((a_ + 1j) * cx + b_ * cy), BWo, order).signal + 10, (a_ + 1j) * Bx + b_ * By + 10)
